@@ -8,6 +8,7 @@ import (
 	"path/filepath"
 	"sort"
 	"strings"
+	"sync"
 
 	"github.com/taskctl/taskctl/internal/config"
 	"github.com/taskctl/taskctl/pkg/runner"
@@ -81,7 +82,7 @@ func (w *IntegWorld) ConfigMap() map[string]interface{} {
 			case "true":
 				m["condition"] = "/bin/true"
 			case "false":
-				m["condition"] = "/bin/false"
+				m["condition"] = falseCondition(s.Name)
 			case "missing":
 				m["condition"] = "/nonexistent/verif-missing-binary"
 			}
@@ -124,6 +125,29 @@ func (w *IntegWorld) ConfigMap() map[string]interface{} {
 
 func scratchRoot() string {
 	return filepath.Join("/var/tmp", fmt.Sprintf("vsim-%d", os.Getpid()))
+}
+
+var exit2Once sync.Once
+
+// falseCondition: an executable that says "no" for a stage condition - /bin/false for half of the
+// stages, for the others a script that exits with status 2 (any non-zero status means no).
+func falseCondition(stage string) string {
+	sum := 0
+	for i := 0; i < len(stage); i++ {
+		sum += int(stage[i])
+	}
+	if sum%2 == 1 {
+		return "/bin/false"
+	}
+	p := filepath.Join(scratchRoot(), "cond-exit2")
+	exit2Once.Do(func() {
+		os.MkdirAll(scratchRoot(), 0o755)
+		os.WriteFile(p, []byte("#!/bin/sh\nexit 2\n"), 0o755)
+	})
+	if _, err := os.Stat(p); err != nil {
+		return "/bin/false"
+	}
+	return p
 }
 
 func (e *integEngine) writeConfig() (string, error) {
